@@ -352,3 +352,20 @@ for _po, _oms in (([0], [_A]), ([0, 1], [_A, _B])):
                       [f'oms_list[{k}].spectrum_bitmap.bitmap[*]' for k in _po] +
                       [f'oms_list[{k}].service_list[*]' for k in _po] + [f'oms_list[{k}].nb_channels' for k in _po],
              use_at_calls=False, allow_other_exc=())
+
+# ---- pairing of opposite directions: every OMS is paired with the first OMS that runs between the same two ends the other way
+# round, and one that has no opposite direction is recorded as unpaired (three OMS with arbitrary end names)
+_OMS3 = lambda: obj('OMS', oms_id=integer(), el_id_list=lst(string(), string(), string()))
+SPEC_REV = '''
+def OPPOSITE(a, b):
+    return a.el_id_list[0] == b.el_id_list[-1] and a.el_id_list[-1] == b.el_id_list[0]
+def FIRST_OPPOSITE(l, i, j):
+    return OPPOSITE(l[i], l[j]) and not any(OPPOSITE(l[i], l[jj]) for jj in range(j))
+'''
+contract('gnpy.topology.spectrum_assignment.reversed_oms', name='gnpy.topology.spectrum_assignment.reversed_oms[three OMS]', props=['C15'],
+         params={'oms_list': lst(_OMS3(), _OMS3(), _OMS3())}, spec=SPEC_REV,
+         ensures=[('paired_with_the_first_opposite_direction',
+                   'all(implies(FIRST_OPPOSITE(oms_list, i, j), oms_list[i].reversed_oms is oms_list[j]) for i in range(3) for j in range(3))'),
+                  ('unpaired_recorded_as_none',
+                   'all(implies(not any(OPPOSITE(oms_list[i], oms_list[j]) for j in range(3)), oms_list[i].reversed_oms is None) for i in range(3))')],
+         modifies=['oms_list[0].reversed_oms', 'oms_list[1].reversed_oms', 'oms_list[2].reversed_oms'], use_at_calls=False, max_paths=3000)
